@@ -13,46 +13,46 @@ import (
 
 // ReplayFile is the on-disk form of a failing (or sample) run.
 type ReplayFile struct {
-	Property  string      `json:"property"`
-	Rule      string      `json:"rule"`
-	Sig       string      `json:"sig"`
-	Scenario  string      `json:"scenario"`
-	Engine    int         `json:"engine"`
-	RepoTree  string      `json:"repo_tree,omitempty"`
-	Seed      uint64      `json:"seed"`
-	RunIndex  uint64      `json:"run_index"`
-	Racy      bool        `json:"racy"`
-	Tape      []uint32    `json:"tape"`
-	Violation string      `json:"violation"`
-	Log       []string    `json:"log"`
-	Minimised bool        `json:"minimised"`
-	ShrinkRuns int        `json:"shrink_runs"`
-	OrigTapeLen int       `json:"orig_tape_len"`
+	Property    string   `json:"property"`
+	Rule        string   `json:"rule"`
+	Sig         string   `json:"sig"`
+	Scenario    string   `json:"scenario"`
+	Engine      int      `json:"engine"`
+	RepoTree    string   `json:"repo_tree,omitempty"`
+	Seed        uint64   `json:"seed"`
+	RunIndex    uint64   `json:"run_index"`
+	Racy        bool     `json:"racy"`
+	Tape        []uint32 `json:"tape"`
+	Violation   string   `json:"violation"`
+	Log         []string `json:"log"`
+	Minimised   bool     `json:"minimised"`
+	ShrinkRuns  int      `json:"shrink_runs"`
+	OrigTapeLen int      `json:"orig_tape_len"`
 }
 
 // WorkerOut is what one worker process reports for its range of run indices.
 type WorkerOut struct {
-	Property   string         `json:"property"`
-	From       uint64         `json:"from"`
-	To         uint64         `json:"to"`
-	Runs       int            `json:"runs"`
-	NonTrivial int            `json:"nontrivial"`
-	Hashes     []uint64       `json:"hashes"` // distinct canonical-log hashes of non-trivial runs
-	AllHashes  int            `json:"all_hashes"`
-	Faults     map[string]int `json:"faults"`
-	Probes     map[string]int `json:"probes"`
-	Scenarios  map[string]int `json:"scenarios"`
-	SimTimeNs  int64          `json:"sim_time_ns"`
-	Phases     int64          `json:"phases"`
-	Racy       int            `json:"racy"`
-	Undrainable int           `json:"undrainable"`
-	Samples    []Sample       `json:"samples"`
-	Violations []ReplayFile   `json:"violations"`
-	Real       []string       `json:"real"`
-	Stub       []string       `json:"stub"`
-	WallS      float64        `json:"wall_s"`
-	Exhaustive bool           `json:"exhaustive"`
-	ExhaustN   int            `json:"exhaust_n"`
+	Property    string         `json:"property"`
+	From        uint64         `json:"from"`
+	To          uint64         `json:"to"`
+	Runs        int            `json:"runs"`
+	NonTrivial  int            `json:"nontrivial"`
+	Hashes      []uint64       `json:"hashes"` // distinct canonical-log hashes of non-trivial runs
+	AllHashes   int            `json:"all_hashes"`
+	Faults      map[string]int `json:"faults"`
+	Probes      map[string]int `json:"probes"`
+	Scenarios   map[string]int `json:"scenarios"`
+	SimTimeNs   int64          `json:"sim_time_ns"`
+	Phases      int64          `json:"phases"`
+	Racy        int            `json:"racy"`
+	Undrainable int            `json:"undrainable"`
+	Samples     []Sample       `json:"samples"`
+	Violations  []ReplayFile   `json:"violations"`
+	Real        []string       `json:"real"`
+	Stub        []string       `json:"stub"`
+	WallS       float64        `json:"wall_s"`
+	Exhaustive  bool           `json:"exhaustive"`
+	ExhaustN    int            `json:"exhaust_n"`
 }
 
 type Sample struct {
